@@ -246,7 +246,8 @@ class Extractor:
             for p in self.params(fn):
                 if p[0] not in ("self", "request"):
                     self.usages.append(dict(name=p[0], kind="fixture_param", **self.cols(p[1], p[2], p[3])))
-        if fn.name.startswith("test_"):
+        # a function decorated as a fixture is a fixture, whatever it is called: pytest does not collect it as a test
+        if fn.name.startswith("test_") and not fix:
             for p in self.params(fn):
                 if p[0] != "self":
                     self.usages.append(dict(name=p[0], kind="test_param", **self.cols(p[1], p[2], p[3])))
